@@ -111,6 +111,11 @@ CLAIMED = {
          "Generated-input search: 100k cases quick / 3M thorough; definitions with joins, WHERE, CASE/COALESCE, DISTINCT, aggregates/GROUP BY/HAVING and explicit column lists; outer queries with WHERE on view columns, joins with base tables, aggregates, set operations; empty views and views created before their tables are loaded are generated on purpose.",
          "The reference is the engine's own derived-table execution (C01 decides that); no LIMIT/OFFSET, RIGHT/FULL joins, self joins or subqueries in the outer query.",
          "DESIGN.md §6 C32"),
+ "C16": ("exploration",
+         "configuration differential on twin databases: the same generated DDL/DML history and queries run on Database::new() (in-memory indexes) and on a database with memory budget 0 and SpillPolicy::SpillToDisk (every non-empty index is spilled to and maintained in the disk-backed B+ tree)",
+         "Generated-input search: 25k histories (about 75k compared queries) quick / 1M thorough, cases as in C02 (duplicate keys, NULL keys, multi-column / DESC / prefix / UNIQUE indexes, updates of indexed columns, deletes, DROP+CREATE INDEX); a floor requires that at least half of the cases run statements against a disk-backed index.",
+         "The 100k-row table-size threshold selects the same DiskBacked code and is not generated; the in-memory twin is the reference (C02 compares it with index-free execution).",
+         "DESIGN.md §6 C16"),
  "C15": ("exploration",
          "invariant testing of index structures: after every statement of a generated history the PK hash index, UNIQUE hash indexes and every user index map are compared with a rebuild from scratch on a clone",
          "Generated-input search: 250k histories quick / 6M thorough with position-shifting deletes, updates of indexed/key columns, DELETE-all/TRUNCATE, INSERT..SELECT; uses only public APIs (primary_key_index, unique_indexes, get_index_data, rebuild_indexes).",
